@@ -39,7 +39,7 @@ import multiprocessing
 import os
 import time
 
-from common import Coverage, Driver, rng, shrink_list, violation
+from common import Coverage, Driver, rng, violation
 
 T30 = 30 * 4096
 TAIL = 31 * 4096
@@ -555,6 +555,17 @@ DIRECTED = [
 ]
 
 
+# the Examples of Props/C08.v (checked by vm_compute in the kernel) replayed through the extracted driver
+VM_EXAMPLES = [
+    ("run 1 122880 I I D:E7,H1 A100 D:H2 I C2 I",
+     "w0@0||e7@0,d0:resp1@0,w1@0||d1:resp2@100|w2@100|d2:canc@100,x@100|d3:disc@100"),
+    ("run 1 122880 I I I A122879 A1 I", "w0@0||||d0:tout@122880,d1:disc@122880,d2:disc@122880,x@122880|d3:disc@122880"),
+    ("run 1 122880 D:H5 I", "c@0,x@0|d0:disc@0"),
+    ("run 1 122880 I I PE D:H1 I", "w0@0||d0:disc@0,d1:disc@0,x@0||d2:disc@0"),
+    ("run 2 122880 I I I D:H1,H2,H3", "w0@0|w1@0||d0:resp1@0,d1:resp2@0,c@0,d2:disc@0,x@0"),
+]
+
+
 # ------------------------------------------------------------------------------------------------
 # run
 # ------------------------------------------------------------------------------------------------
@@ -583,6 +594,32 @@ def run_many(cases, workers):
         gc.unfreeze()
 
 
+def shrink_hist(hist, still, budget=150):
+    """one-event-at-a-time shrinking; removing the k-th Issue renumbers the later Cancel ids"""
+    hist = [list(e) for e in hist]
+    n = 0
+    progress = True
+    while progress and n < budget:
+        progress = False
+        i = 0
+        while i < len(hist) and n < budget:
+            cand = hist[:i] + hist[i + 1:]
+            if hist[i][0] == "I":
+                k = sum(1 for e in hist[:i] if e[0] == "I")
+                cand = []
+                for j, e in enumerate(hist):
+                    if j == i or (e[0] == "C" and e[1] == k):
+                        continue
+                    cand.append(["C", e[1] - 1] if e[0] == "C" and e[1] > k else e)
+            n += 1
+            if still(cand):
+                hist = cand
+                progress = True
+            else:
+                i += 1
+    return hist
+
+
 def compare(hist, res, model_steps):
     """first step where canonical outputs differ, or None"""
     impl_steps = [s["out"] for s in res["steps"]] + [res["tail"]]
@@ -606,6 +643,12 @@ def run(ctx):
     if not all(row[1] for row in st):
         viols.append(violation("vloop-selftest", "MemTransport deviates from the real selector transport: %r"
                                % [row for row in st if not row[1]][:2], False))
+
+    for (line, want), got in zip(VM_EXAMPLES, drv.batch([l for l, _ in VM_EXAMPLES])):
+        if got.partition(" # ")[0] != want:
+            viols.append(violation("extraction-vs-vm_compute", f"extracted model answers {got!r} on {line!r}, the kernel-checked "
+                                   f"Example in Props/C08.v says {want!r}", False, line=line, got=got, want=want))
+    cov.extra["extraction_cross_check"] = "%d Examples of Props/C08.v (vm_compute) replayed through the extracted driver" % len(VM_EXAMPLES)
 
     streams = []
     if ctx.get("replay"):
@@ -635,6 +678,8 @@ def run(ctx):
         streams.append(("random", gen_random(rng(seed, "c08rand"), n_rand, 40)))
 
     n_mismatch = 0
+    n_oracle = 0
+    key_count = {}
     for name, cases in streams:
         lines = [model_line(cap, h + [["A", TAIL]]) for cap, h in cases]
         answers = drv.batch(lines)
@@ -658,15 +703,19 @@ def run(ctx):
             for o in {t.split(":")[1].split("@")[0].rstrip("0123456789") for s in res["steps"] for t in s["out"] if t[0] == "d"}:
                 cov.hist["outcome_seen"][o] += 1
             if orc:
-                # shrink for a small replay
+                n_oracle += 1
                 key = orc[0][0]
+                key_count[key] = key_count.get(key, 0) + 1
+                if key_count[key] > 2:
+                    continue          # enough replays for this failure class; keep counting
+                # shrink for a small replay
 
                 def still(h2, key=key, cap=cap):
                     try:
                         return any(k == key for k, _ in oracle(h2, run_impl(h2, cap)))
                     except Exception:  # noqa
                         return False
-                small = shrink_list(hist, still, budget=120) if len(viols) < 6 else hist
+                small = shrink_hist(hist, still, budget=150)
                 res2 = run_impl(small, cap)
                 for k, w in oracle(small, res2) or orc:
                     viols.append(violation(k, f"{w}  [cap={cap} history={json.dumps(small)}]", True, cap=cap, history=small,
@@ -684,7 +733,7 @@ def run(ctx):
                             return compare(h2, r2, m2) is not None
                         except Exception:  # noqa
                             return False
-                    small = shrink_list(hist, differs, budget=150)
+                    small = shrink_hist(hist, differs, budget=150)
                     r2 = run_impl(small, cap)
                     o2 = oracle(small, r2)
                     m2 = parse_model(drv.batch([model_line(cap, small + [["A", TAIL]])])[0], len(small) + 1)[0]
@@ -700,6 +749,8 @@ def run(ctx):
                                                False, cap=cap, history=small, step=i, impl=ca, model=cb,
                                                broken="correspondence Model/Disp.v <-> aiohomekit/controller/ip/connection.py"))
     cov.extra["disagreements_checked"] = n_mismatch
+    cov.extra["oracle_rejections"] = n_oracle
+    cov.extra["oracle_rejections_by_key"] = key_count
     cov.extra["workers"] = workers
     cov.extra["unsolicited_response_policy"] = (
         "an HTTP message read while no request is in flight makes data_received raise (IndexError from pop(0)); the "
